@@ -45,6 +45,11 @@ def _percent(self, other):
         rewritten = None
         if any(symbolic) and type(self) is str:
             specs = [m for m in _SPEC.finditer(self) if m.group(5) != '%']
+            if not any(m.group(1) for m in specs) and not any(m.group(2) == '*' or m.group(4) == '*' for m in specs) \
+                    and len(specs) != len(args) and not (len(specs) == 1 and not isinstance(other, tuple)):
+                # Python's own verdict, without realising the symbolic arguments first
+                raise TypeError('not all arguments converted during string formatting' if len(args) > len(specs)
+                                else 'not enough arguments for format string')
             if len(specs) == len(args) and not any(m.group(1) for m in specs):
                 out, last, new_args = [], 0, []
                 for m, a, sym in zip(specs, args, symbolic):
